@@ -133,7 +133,9 @@ fn followups(m: &mut Machine, w: &Workload) -> Vec<(String, String)> {
     if !ask(m, "again", &format!("vf_irun(a,0,{},R).", w.name)) {
         return v;
     }
-    v.push(("control".into(), control_state(m)));
+    let (cs, balls) = control_state_no_ball_stack(m);
+    v.push(("control".into(), cs));
+    v.push(("ball_stack".into(), balls.to_string()));
     v
 }
 
@@ -229,6 +231,11 @@ fn inject(m: &mut Machine, w: &Workload, q: &str, n: u64, base: &Base) -> (InjOu
         if got.iter().any(|(_, o)| o.starts_with("Panic")) {
             usable = false;
         }
+        if let Some((_, b)) = got.iter().find(|(n, _)| n == "ball_stack") {
+            if b != "0" {
+                classes.push("leak:stale-entry-on-ball-stack".into());
+            }
+        }
         if sig.is_none() {
             let exp: Vec<(&str, String)> = vec![
                 ("log", String::new()),
@@ -266,7 +273,7 @@ fn baseline(m: &mut Machine, w: &Workload, q: &str) -> Result<Base, String> {
         polls.push(p);
     }
     let f = followups(m, w);
-    let ok = f.len() == 5 && log_ok(&f[0].1) && f[1].1 == QOut::True.short() && f[2].1 == QOut::R(BATTERY_EXPECTED.into()).short() && f[3].1 == QOut::R(w.expected.into()).short();
+    let ok = f.len() == 6 && log_ok(&f[0].1) && f[1].1 == QOut::True.short() && f[2].1 == QOut::R(BATTERY_EXPECTED.into()).short() && f[3].1 == QOut::R(w.expected.into()).short();
     if !ok {
         return Err(format!("baseline follow-ups of {} gave {:?}", w.name, f));
     }
@@ -332,11 +339,15 @@ fn child_group(g: &GroupIn) -> i32 {
     }
     // enumeration: every poll index, plus one beyond the end
     let mut history: Vec<u64> = vec![];
+    let mut confirmed_sigs: std::collections::HashSet<String> = Default::default();
     for n in g.from..=base.polls {
         say(format!("BEGIN {n}"));
         let (mut r, usable) = inject(&mut m, w, &q, n, &base);
         history.push(n);
-        if r.sig.is_some() || !usable {
+        if r.sig.as_ref().map(|s| confirmed_sigs.contains(s)).unwrap_or(false) && usable {
+            // this signature already reproduced on a fresh machine in this group; the machine
+            // answered its follow-ups, keep using it
+        } else if r.sig.is_some() || !usable {
             // confirm on a fresh machine with this injection alone
             let mut f = mk_machine().machine;
             let confirmed = match baseline(&mut f, w, &q) {
@@ -352,7 +363,12 @@ fn child_group(g: &GroupIn) -> i32 {
             };
             std::mem::forget(f);
             match confirmed {
-                Some(r2) => r = r2,
+                Some(r2) => {
+                    r = r2;
+                    if let Some(s) = &r.sig {
+                        confirmed_sigs.insert(s.clone());
+                    }
+                }
                 None => {
                     if let Some(s) = r.sig.take() {
                         r.sig = Some(format!("history-dependent:{s}"));
